@@ -501,11 +501,22 @@ func c14One(c *vf.Ctx, sub string, i int, r *rand.Rand, ids []Ident) {
 		}
 		for _, g := range got {
 			// find the emission this corresponds to: first unused with same peer, cid, in emission order
+			// (the same head can be notified more than once — resyncs, syncs with an explicit stop: a listener that
+			// registered late received the later ones, so emissions forwarded before it registered are not candidates,
+			// nor are emissions older than the last one matched for this publisher)
 			idx := -1
 			for x, em := range emits {
-				if !used[em] && em.peer == g.PeerID && em.cid.Equals(g.Cid) {
+				if !used[em] && em.peer == g.PeerID && em.cid.Equals(g.Cid) && x >= lastIdx[g.PeerID] && (em.fwd == 0 || em.fwd > l.regCall) {
 					idx = x
 					break
+				}
+			}
+			if idx < 0 {
+				for x, em := range emits {
+					if !used[em] && em.peer == g.PeerID && em.cid.Equals(g.Cid) {
+						idx = x
+						break
+					}
 				}
 			}
 			if idx < 0 {
